@@ -49,6 +49,7 @@ def gen_inputs(tier, rng):
     descs.append({"jobs": [typed({"a": True}), typed({"a": 1})], "pseed": 1})
     descs.append({"jobs": [typed({"a": -1}), typed({"a": -1.0})], "pseed": 2})
     descs.append({"jobs": [typed({"a": {}}), typed({"a": 1})], "pseed": 3})
+    descs.append({"jobs": [typed({"a": {"x": "x"}}), typed({"a": {}})], "pseed": 4})
     return descs
 
 
